@@ -207,6 +207,18 @@ def base_scenario(rng, index):
                                 'failed-load'])
     sc['global_flags'] = rng.choice([[], [], ['-q'], ['--debug']])
     sc['source_gone'] = route in ('lib', 'lib-twice') and rng.random() < 0.2
+    # round 8 (decided by position in the matrix, no draws)
+    rnd_no = index // len(MATRIX)
+    if prior == 'absent' and route in ('lib', 'writep8', 'luamin', 'luafmt',
+                                       'build', 'build-minify') and \
+            rnd_no % 3 == 1:
+        # the destination name is a symbolic link whose target does not
+        # exist (yet): nothing is there, and nothing may be after a failure
+        sc['dest_dangling'] = True
+        sc['odd_names'] = False
+    if route == 'luafmt-overwrite' and (rnd_no + index) % 2 == 1:
+        # an earlier plain `luafmt` run left <name>_fmt.p8 beside the cart
+        sc['stale_fmt_sibling'] = True
     if route.startswith('build'):
         sc['build'] = {
             'lua': rng.choice(['cart', 'luafile', 'none']),
@@ -422,6 +434,13 @@ def _setup(w, sc):
                     w.p(dest_rel))), w.p(dest_rel))
             else:
                 w.put(dest_rel, pb)
+    if sc.get('dest_dangling') and not os.path.lexists(w.p(dest_rel)):
+        os.symlink('not_there_yet' + os.path.splitext(dest_rel)[1],
+                   w.p(dest_rel))
+    if sc.get('stale_fmt_sibling'):
+        stale = refcodec.cart_from_spec(sc['prior_cart'])
+        w.put('in/src_fmt' + EXT[sc['src_fmt']],
+              refcodec.encode_any('in/src_fmt' + EXT[sc['src_fmt']], stale))
     cwd_rel = {'root': '', 'in': 'in', 'out': 'out'}[sc.get('cwd', 'root')]
     os.chdir(w.p(cwd_rel))
 
